@@ -244,7 +244,7 @@ Definition tstep (fixed : bool) (s : st) (t : nat) : option (st * label) :=
         if closing x then Some (set_pc s t Done, LCloseSkip i)
         else
           let x' := {| closing := true; cstarted := true; destroyed := destroyed x;
-                       cancelled := cancelled x; stored := stored x; tearer := Some t; cbdone := cbdone x |} in
+                       cancelled := cancelled x; stored := stored x; tearer := Some t; cbdone := false |} in
           Some (set_pc (set_inst s i x') t (CFinish i), LCloseBegin i)
       else None
   | CFinish i =>
